@@ -63,6 +63,8 @@ enum Checks : uint32_t
     CK_AUDIT = 1u << 4,      // C11 raw auditor + C02 library-writes side
     CK_RELOAD = 1u << 5,     // C10 comparisons at reload
     CK_TABLE = 1u << 6,      // C18 / C03 table oracles
+    CK_HOSTILE = 1u << 7,    // C15 hostile-caller profile (arguments outside the nominal domain)
+    CK_FOREIGN = 1u << 8,    // C04 / C02-converse / C05 foreign-writer profile
     CK_ALL = 0xffffffffu
 };
 
@@ -281,7 +283,13 @@ struct World
     bool reload();        // load_database + rebind handles; false if load threw
 
     // --- helpers
-    bool check(uint32_t c) const { return (plan.cfg.checks & c) != 0; }
+    bool model_off = false;  // a hostile call with undefined model semantics completed: stop model checks
+    bool check(uint32_t c) const
+    {
+        if (model_off && (c == CK_MODEL || c == CK_DIFF))
+            return false;
+        return (plan.cfg.checks & c) != 0;
+    }
     void report(const std::string& prop, const std::string& key,
                 const std::string& detail);
     void note(const std::string& s);
@@ -341,6 +349,8 @@ struct World
     bool exec_table_op(const Step& s);    // table.cpp (actor T)
     bool exec_foreign_op(const Step& s);  // foreign.cpp (actor F)
     bool exec_hostile_op(const Step& s);  // hostile.cpp
+    void hostile_finish(const std::string& op);
+    void adopt_crate(const dj::crate& c, int64_t parent, const std::string& name);
     void apply_setter(dj::track& t, int field, int slot, const dj::track_snapshot& donor,
                       bool use_value_overload);
     // actor T (table.cpp)
@@ -403,7 +413,7 @@ Outcome World::call(const FaultSpec& f, Fn&& fn)
 }
 
 // plan generation (plan.cpp)
-Plan generate_plan(const std::string& profile, uint64_t seed);
+Plan generate_plan(const std::string& profile, uint64_t seed, uint64_t index = 0);
 std::vector<std::string> all_profiles();
 
 }  // namespace djsim
